@@ -8,7 +8,7 @@ from .. import compile_common as CC
 
 ID = "C01"
 PROPS_FILE = "Props/C01.v"
-PROPS_EXTRA = ["Props/C01inv.v"]
+PROPS_EXTRA = ["Props/C01inv.v", "Props/C01ref.v"]
 GEN_DEPS = ["GenUnits"]
 ALLOWED_AXIOMS: List[str] = []
 THEOREMS = {
@@ -17,7 +17,10 @@ THEOREMS = {
     "C01_accepts_iff_resolvable": "full",
     "C01_no_assert_crash": "full",
     "C01_fold_rule": "full",
-    "C01_compiled_is_resolved_up_to_folding": "partial",   # full refinement to resolve;fold;embed not proved
+    "C01_compiled_is_resolved_up_to_folding": "full",
+    "C01_compile_refines_sym": "full", "C01_compile_refines_sym_inst": "full", "C01_sym_compile_total": "full",
+    "C01_sym_fold_conserves_nodes": "full", "C01ref_example_result": "example",
+    "C01inv_names_unique": "full", "C01inv_compile_ok": "full", "C01inv_example_valid": "example", "C01inv_example_keys": "example",
     "C01inv_crash_only_overflow": "full", "C01inv_never_crashes_structurally": "full", "C01inv_strictly_valid": "full",
     "C01inv_example_accepted": "example",
     "C01_fold_example": "example", "C01_named_fold_keeps_title": "example", "C01_two_uses_not_folded": "example",
